@@ -308,6 +308,7 @@ package allocation
 //@   ensures [C15,C20:relay-open] res1 == nil && int(protocol) == 17 ==> res0.relayPacketConn != nil && socketsOpened == old(socketsOpened) + 1
 //@   ensures [C15,C20:listener-open] res1 == nil && int(protocol) == 6 ==> res0.relayListener != nil && socketsOpened == old(socketsOpened) + 1
 //@   ensures [C15:fail-no-socket] res1 != nil ==> socketsOpened == old(socketsOpened)
+//@   ensures [C06,C15,C19:fail-no-timer] res1 != nil ==> forall t :: armed(t) ==> old(armed(t))
 //@   assigns entries(m.allocations), timers, socketsOpened, allocCreatedEvents
 //@   ensures res1 == nil ==> allocWF(res0) && permTimers(res0) && chanTimers(res0) && timersDisjoint(res0) && chansWF(res0) && chanPeersNonNil(res0) && permKeysOK(res0) && res0.lifetimeTimer != nil && res0.closed != nil && !closed(res0.closed)
 
